@@ -12,17 +12,17 @@ namespace DymVerif.Core
 /-- same height and params; every rollapp survives with the same number of states, each of which
     is either untouched or was unfinalized and got finalized at this height -/
 def FinRel (s s' : St) : Prop :=
-  s'.h = s.h ∧ s'.p = s.p ∧ ∀ r ∈ s.ras, ∃ r' ∈ s'.ras, r'.id = r.id ∧ r'.states.length = r.states.length ∧
+  s'.h = s.h ∧ s'.p = s.p ∧ s'.ras.map (·.id) = s.ras.map (·.id) ∧ ∀ r ∈ s.ras, ∃ r' ∈ s'.ras, r'.id = r.id ∧ r'.states.length = r.states.length ∧
     ∀ (i : Nat) (st : SInfo), r.states[i]? = some st → ∃ st', r'.states[i]? = some st' ∧
       (st' = st ∨ (st.finalized = false ∧ st' = { st with finalized := true, finalizedAt := s.h }))
 
 theorem FinRel.refl (s : St) : FinRel s s :=
-  ⟨rfl, rfl, fun r hr => ⟨r, hr, rfl, rfl, fun _ st hst => ⟨st, hst, Or.inl rfl⟩⟩⟩
+  ⟨rfl, rfl, rfl, fun r hr => ⟨r, hr, rfl, rfl, fun _ st hst => ⟨st, hst, Or.inl rfl⟩⟩⟩
 
 theorem FinRel.trans {a b c : St} (h1 : FinRel a b) (h2 : FinRel b c) : FinRel a c := by
-  obtain ⟨a1, a2, a3⟩ := h1
-  obtain ⟨b1, b2, b3⟩ := h2
-  refine ⟨b1.trans a1, b2.trans a2, ?_⟩
+  obtain ⟨a1, a2, a4, a3⟩ := h1
+  obtain ⟨b1, b2, b4, b3⟩ := h2
+  refine ⟨b1.trans a1, b2.trans a2, b4.trans a4, ?_⟩
   intro r hr
   obtain ⟨r1, hr1, e1, l1, f1⟩ := a3 r hr
   obtain ⟨r2, hr2, e2, l2, f2⟩ := b3 r1 hr1
@@ -42,7 +42,7 @@ theorem FinRel.trans {a b c : St} (h1 : FinRel a b) (h2 : FinRel b c) : FinRel a
 
 theorem FinRel.evolves {s s' : St} (h : FinRel s s') : Evolves s s' := by
   intro r hr
-  obtain ⟨r', hr', e1, _, f1⟩ := h.2.2 r hr
+  obtain ⟨r', hr', e1, _, f1⟩ := h.2.2.2 r hr
   refine ⟨r', hr', e1, ?_⟩
   intro i st hst hf
   obtain ⟨st', hst', c⟩ := f1 i st hst
@@ -50,10 +50,28 @@ theorem FinRel.evolves {s s' : St} (h : FinRel s s') : Evolves s s' := by
   · exact ⟨st', hst', by rw [c]⟩
   · rw [hf] at c; cases c
 
+/-- backward reading: every state info after the pass comes from the one at the same place before -/
+theorem FinRel.back {s s' : St} (h : FinRel s s') (hn : IdsNodup s') {r' : Rollapp} (hr' : r' ∈ s'.ras) :
+    ∃ r ∈ s.ras, r.id = r'.id ∧ ∀ (i : Nat) (st' : SInfo), r'.states[i]? = some st' → ∃ st, r.states[i]? = some st ∧
+      (st' = st ∨ (st.finalized = false ∧ st' = { st with finalized := true, finalizedAt := s.h })) := by
+  obtain ⟨_, _, hids, hf⟩ := h
+  have : r'.id ∈ s'.ras.map (·.id) := List.mem_map.2 ⟨r', hr', rfl⟩
+  rw [hids] at this
+  obtain ⟨r, hr, hid⟩ := List.mem_map.1 this
+  obtain ⟨r2, hr2, hid2, hlen, hst2⟩ := hf r hr
+  have : r2 = r' := hn.unique hr2 hr' (hid2.trans hid)
+  subst this
+  refine ⟨r, hr, hid, ?_⟩
+  intro i st' hst'
+  have hlt : i < r.states.length := by rw [← hlen]; exact getElem?_lt hst'
+  obtain ⟨st2, h1, h2⟩ := hst2 i r.states[i] (List.getElem?_eq_getElem hlt)
+  rw [hst'] at h1; injection h1 with h1; subst h1
+  exact ⟨_, List.getElem?_eq_getElem hlt, h2⟩
+
 theorem finalizeOne_rel {s s' : St} {fails : List (Nat × Nat)} {ra idx : Nat} (hn : IdsNodup s)
     (e : finalizeOne s fails ra idx = some s') : FinRel s s' ∧ IdsNodup s' := by
   obtain ⟨r, st, s0, hg, hst, hnf, _, hfr, rfl⟩ := finalizeOne_some e
-  refine ⟨⟨hfr.h, hfr.p, ?_⟩, (hn.of_ids (by rw [hfr.ras])).setRa _⟩
+  refine ⟨⟨hfr.h, hfr.p, by rw [setRa_ids, hfr.ras], ?_⟩, (hn.of_ids (by rw [hfr.ras])).setRa _⟩
   intro r0 hr0
   by_cases h0 : r0.id = r.id
   · have : r0 = r := hn.unique hr0 (getRa_mem hg) h0
@@ -74,7 +92,7 @@ theorem go_rel (fails : List (Nat × Nat)) (e : QEntry) : ∀ (l : List Nat) (s 
     FinRel s (finalizeEntry.go fails e s l).1 ∧ IdsNodup (finalizeEntry.go fails e s l).1 := by
   intro l
   induction l with
-  | nil => intro s hn; unfold finalizeEntry.go; exact ⟨⟨rfl, rfl, (FinRel.refl s).2.2⟩, hn⟩
+  | nil => intro s hn; unfold finalizeEntry.go; exact ⟨⟨rfl, rfl, rfl, (FinRel.refl s).2.2.2⟩, hn⟩
   | cons i tl ih =>
     intro s hn
     unfold finalizeEntry.go
@@ -83,7 +101,7 @@ theorem go_rel (fails : List (Nat × Nat)) (e : QEntry) : ∀ (l : List Nat) (s 
       obtain ⟨r1, n1⟩ := finalizeOne_rel hn h1
       obtain ⟨r2, n2⟩ := ih s1 n1
       exact ⟨r1.trans r2, n2⟩
-    · exact ⟨⟨rfl, rfl, (FinRel.refl s).2.2⟩, hn⟩
+    · exact ⟨⟨rfl, rfl, rfl, (FinRel.refl s).2.2.2⟩, hn⟩
 
 theorem finalizeAll_rel (fails : List (Nat × Nat)) : ∀ (es : List QEntry) (failed : List Nat) (s : St), IdsNodup s →
     FinRel s (finalizeAll s fails es failed) := by
@@ -294,6 +312,71 @@ theorem apply_good {s s' : St} {o : Op} (e : apply s o = .ok s') : Good s s' := 
   | obsolete au vs => exact (markObsolete_fs e).good
   | begin_ dt => simp only [apply] at e; injection e with e; subst e; exact beginBlock_good s dt
   | end_ f => simp only [apply] at e; injection e with e; subst e; exact endBlock_good s f
+
+theorem FS.back {s s' : St} (h : FS s s') (hc : ChainAll s) (hi : FinInv s) : Back s s' := (h (hi.pre hc)).2.back
+
+theorem fraud_back {s s' : St} {au : Bool} {ra hh rev : Nat} {p rw : Option Addr}
+    (e : fraud s au ra hh rev p rw = .ok s') (hc : ChainAll s) (hi : FinInv s) : Back s s' := by
+  unfold fraud at e
+  split at e
+  · cases e
+  · split at e
+    · cases e
+    · split at e
+      · cases e
+      · split at e
+        · cases e
+        · dsimp only at e
+          split at e
+          · cases e
+          · rename_i s1 h1
+            split at h1
+            · have hfs := punish_fs h1
+              obtain ⟨c1, i1, _, _⟩ := hfs.good hc hi
+              exact (hfs.back hc hi).trans (hardFork_full e c1 i1).2
+            · injection h1 with h1; subst h1; exact (hardFork_full e hc hi).2
+
+/-- **no op other than `end_` finalizes anything** -/
+theorem apply_back {s s' : St} {o : Op} (e : apply s o = .ok s') (hne : ∀ f, o ≠ .end_ f)
+    (hc : ChainAll s) (hi : FinInv s) : Back s s' := by
+  cases o with
+  | createRollapp id owner mb =>
+    simp only [apply] at e
+    split at e
+    · cases e
+    · injection e with e; subst e
+      intro r' hr' i st' hst' _
+      rcases insertSorted_mem' _ _ _ _ hr' with h1 | h1
+      · subst h1; simp [newRollapp] at hst'
+      · exact ⟨r', h1, rfl, st', hst', rfl⟩
+  | bridge ra hh =>
+    simp only [apply] at e
+    split at e
+    · cases e
+    · rename_i r hg
+      split at e
+      · cases e
+      · split at e
+        · cases e
+        · injection e with e; subst e
+          exact (FS.setRa (r' := { r with tph := hh }) hg rfl).back hc hi
+  | fund a amt =>
+    simp only [apply] at e; injection e with e; subst e
+    exact Back.of_ras_eq rfl
+  | createSeq a ra b d => exact (createSeq_fs e).back hc hi
+  | bondInc a amt d => exact (increaseBond_fs e).back hc hi
+  | bondDec a amt => exact (decreaseBond_fs e).back hc hi
+  | unbond a => exact (unbond_fs e).back hc hi
+  | optIn a v => exact (optIn_fs e).back hc hi
+  | kick a => exact (kick_fs e).back hc hi
+  | update m => exact (updateState_full e hc hi).2
+  | fraud au ra hh rev p rw => exact fraud_back e hc hi
+  | obsolete au vs => exact (markObsolete_fs e).back hc hi
+  | begin_ dt =>
+    simp only [apply] at e; injection e with e; subst e
+    exact (Back.of_ras_eq (s' := { s with h := s.h + 1, t := s.t + dt }) rfl).trans
+      ((beginBlock_fs s dt).back (hc.ras_eq rfl) (hi.bump dt))
+  | end_ f => exact absurd rfl (hne f)
 
 theorem step_good (s : St) (o : Op) : Good s (step s o).1 := by
   unfold step
